@@ -12,6 +12,10 @@ def hooks_commits():
 
 # id -> dict(engine, category, technique, text, note, design_ref)
 CHECKS = {
+ "C15": dict(engine="h_app", category="model_checking", design="§3 C15",
+   technique="stateless exhaustive schedule exploration with preemption bounding of producers, the library's worker thread and the guard holder as real threads under a cooperative scheduler, crossed with exhaustive fault masks on a scripted underlying writer (fresh process per schedule)",
+   text="For every scenario (1-3 producers x 1-3 lines, queue capacity 1-3, lossy / non-lossy, guard dropped after the producers or at any time, every subset of the first writer calls failing) every interleaving up to the preemption bound of try_send / send / recv / try_recv / the shutdown handshake and of each write_all / flush of the underlying writer is executed and judged: each accepted line reaches the writer exactly once, whole, in per-producer order and consistent with real-time order; lossy: written + failed + dropped_lines = offered; non-lossy: nothing dropped, producers wait; a failed write loses only that line; after the guard drop returns everything accepted before it was written, a flush followed the last write, the writer was released; no deadlock.",
+   note="The 100 ms / 1 s shutdown timeouts are modelled as never firing (a handshake that could only end by timeout is a deadlock). A blocking send racing with the worker's exit and wake-up by channel disconnection are not modelled. F9 (flush error on the shutdown batch strands the worker) was found here and repaired."),
  "C10": dict(engine="h_span", category="exploration", design="§3 C10",
    technique="exhaustive enumeration of a generated macro-form x field-form x value-type corpus under every filtering stage (fresh process per stage; compile-time cap in a separately built binary) + preemption-bounded exhaustive schedule exploration of racing first hits",
    text="Generated corpus (tools/gen_c10.py): {event!, trace!..error!} x 7 prefix forms x 12 field-list shapes and {span!, *_span!} x 4 prefix forms x the message-free shapes (every combination the macro grammar accepts), every Value type with boundary values in events and spans, Span::record of declared and undeclared fields, enabled!; every callsite is hit twice under collectors that enable it, disable it statically, disable it dynamically, enable it dynamically, cap the level by hint, and under the compile-time maximum level: a typed recording visitor must see each field once, under its declared name, in declaration order (message first), through the visitor method of its type with exactly the value; counters inside every field/message expression must read 1 when enabled and 0 when disabled. Two threads racing on the first hit of a disabled callsite are explored over every interleaving up to the bound.",
